@@ -56,6 +56,15 @@ fn run_case(t: &mut Tape, c: &mut Case, huge: bool) -> Result<(), String> {
             fix_widths(&mut d.forest);
         }
     }
+    if huge && !probe && t.chance(1, 2) {
+        let n = *t.pick(&[65_536usize, 70_000, 1 << 20, (1 << 20) + 5, (1 << 21) + 1]);
+        let (done, first) = if t.chance(1, 2) { enlarge_first_child_of_streamed_master(t, &mut d.forest, n) } else { (enlarge_one_leaf(t, &mut d.forest, n), false) };
+        if done {
+            fix_widths(&mut d.forest);
+            c.label("forced_payload_64KiB_to_2MiB");
+            c.label_if(first, "big_first_child_of_streamed_master");
+        }
+    }
     c.label_if(probe, "reserved_width_probe");
     doc_labels(c, &d);
     let special = ["boundary_len", "explicit_width", "unknown_size", "has_full", "neg_int", "float", "raw_tags"];
@@ -196,7 +205,7 @@ pub const STAGES: &[Stage] = &[Stage { name: "roundtrip", f: stage_main }, Stage
 
 pub fn run(rc: &mut RunCtx) {
     rc.run_pt(STAGES[0], rc.pick(640_000, 3_000_000), (96, 640));
-    rc.run_pt(STAGES[1], rc.pick(400, 1_500), (96, 400));
+    rc.run_pt(STAGES[1], rc.pick(3_000, 12_000), (96, 400));
     for l in ["unknown_size", "boundary_len", "explicit_width", "has_full", "raw_tags", "spec_macro_derived", "depth3plus", "global_element", "reserved_width_probe", "leaves_through_write_raw"] {
         rc.require_label("roundtrip", l, 10_000);
     }
